@@ -83,6 +83,20 @@ pub fn handle(op: &str, req: &Value) -> Option<Value> {
             json!({"equal": va == vb, "view_a": va, "view_b": vb})
         },
         // one local operation from a view built by merging `pre` into an empty state; observes clock and incarnations
+        "gossip_suspect_alive" => {
+            let pre = &req["pre"];
+            let id = format!("n{}", pre.get("arg_id").cloned().unwrap_or(Value::Null));
+            let a = pre.get("arg_inc").and_then(Value::as_u64).unwrap_or(0);
+            let b = pre.get("arg_inc2").and_then(Value::as_u64).unwrap_or(0);
+            let mut s1 = build_pre(pre);
+            let mut s2 = build_pre(pre);
+            s1.suspect(&id, a);
+            s1.refute(&id, b);
+            s2.refute(&id, b);
+            s2.suspect(&id, a);
+            let (v1, v2) = (view(&s1), view(&s2));
+            json!({"suspect_first": v1, "alive_first": v2, "differ": v1 != v2})
+        },
         "gossip_local_op" => {
             let pre = &req["pre"];
             let mut s = build_pre(pre);
